@@ -57,5 +57,27 @@ def simulate(spec, R, progset=None, instructions=None, project=None):
     return P, result, view
 
 
+def simulate_case(case, R):
+    """Generated spec or corpus model -> (P, result, view) with the same domain exclusions."""
+    if case.get("kind") == "corpus":
+        from av import corpus
+
+        R.count("corpus_cases")
+        try:
+            P, progset, instr = corpus.build(case)
+            out = simulate(None, R, progset=progset, instructions=instr, project=P)
+        except Excluded:
+            raise
+        except Exception as e:
+            if type(e).__name__ == "BadInitialization":
+                R.count("corpus_bad_initialization")
+                raise Excluded("perturbed databook cannot be initialised")
+            raise
+        R.count("corpus_runs[%s]" % case["framework"].split("/")[-1])
+        R.count("corpus_mode[%s%s]" % (case["mode"], "+programs" if progset is not None else ""))
+        return out
+    return simulate(case["spec"], R)
+
+
 def _is_output_only(p):
     return bool(p.fcn_str) and (":" in p.fcn_str)
